@@ -168,7 +168,7 @@ def check_take_action_composition(ctx, prog, I, mvs):
     kb = inputs.field_index(prog, 'engine::GameState', 'piece_board')
     for (gold, step) in ((True, 0), (False, 3), (True, 2)):
         for (s, d) in mvs:
-            gsv = inputs.play_state(prog, gold, step)
+            gsv = inputs.play_state(prog, gold, step, trapped='sym')
             st = State({})
             gs = inputs.ref_to(I, st, 'gs', gsv)
             act = inputs.ref_to(I, st, 'act', Enum('action::Action', inputs.enum_variant(prog, 'action::Action', 'Move'),
@@ -191,7 +191,7 @@ def check_take_action_composition(ctx, prog, I, mvs):
                             % (G.name(s), d, step, diff))
                 break
     for (gold, step) in ((True, 1), (False, 2), (True, 3)):
-        gsv = inputs.play_state(prog, gold, step)
+        gsv = inputs.play_state(prog, gold, step, trapped='sym')
         st = State({})
         gs = inputs.ref_to(I, st, 'gs', gsv)
         act = inputs.ref_to(I, st, 'act', Enum('action::Action', inputs.enum_variant(prog, 'action::Action', 'Pass')))
@@ -417,7 +417,7 @@ def check_preview(ctx, prog, I, mvs):
         return
     for (s, d) in mvs:
         for gold in (True, False):
-            gsv = inputs.play_state(prog, gold, 1)
+            gsv = inputs.play_state(prog, gold, 1, trapped='sym')
             st = State({})
             gs = inputs.ref_to(I, st, 'gs', gsv)
             act = inputs.ref_to(I, st, 'act', Enum('action::Action', inputs.enum_variant(prog, 'action::Action', 'Move'),
